@@ -274,7 +274,7 @@ func sameTypeParamScope(fn, g *ssa.Function, c *ssa.Call) bool {
 	if g.TypeParams().Len() == 0 {
 		return true
 	}
-	if cg := c.Call.StaticCallee(); cg != nil && cg.Origin() == g && allTypeParams(cg.TypeArgs()) && fn.TypeParams().Len() == g.TypeParams().Len() {
+	if cg := c.Call.StaticCallee(); cg != nil && cg.Origin() == g && allTypeParams(cg.TypeArgs()) && fn.TypeParams().Len() > 0 {
 		// the cloned instructions keep the callee's own type-parameter
 		// objects in their types; the rules compare values, not these types
 		return true
